@@ -39,6 +39,7 @@ func indexLoops(pk *packages.Package, only func(name string) bool) []loopSite {
 			continue
 		}
 		seq := map[string]int{}
+		ld := newLocalDefs(info, fd)
 		ast.Inspect(fd.Body, func(n ast.Node) bool {
 			fs, ok := n.(*ast.ForStmt)
 			if !ok || fs.Init == nil || fs.Cond == nil || fs.Post == nil {
@@ -109,7 +110,9 @@ func indexLoops(pk *packages.Package, only func(name string) bool) []loopSite {
 			case token.DEC:
 				// k := len(L)-1; k >= 0
 				if be, ok := ast.Unparen(fs.Cond).(*ast.BinaryExpr); ok && be.Op == token.GEQ && strings.ReplaceAll(types.ExprString(be.Y), " ", "") == "0" {
-					if strings.HasPrefix(initS, "len(") && strings.HasSuffix(initS, ")-1") {
+					// `len(L)-1`, or `n-1` with n a local defined once as len(L)
+					initR := strings.ReplaceAll(ld.render(as.Rhs[0]), " ", "")
+					if (strings.HasPrefix(initS, "len(") && strings.HasSuffix(initS, ")-1")) || (strings.HasPrefix(initR, "(len(") && strings.HasSuffix(initR, ")-1)")) {
 						if lid, ok := ast.Unparen(be.X).(*ast.Ident); ok && info.ObjectOf(lid) == v {
 							canon = true
 						}
